@@ -50,6 +50,13 @@ inductive K where
   /-- SETTINGS with unacceptable content (§7.2.4.1) on a request stream: out of place and
       invalid, either code is right -/
   | S
+  /-- frame type 0x41, the WEBTRANSPORT_STREAM signal of draft-ietf-webtrans-http3, with its session
+      id (R-03b: a type that is DEFINED and allocated — not one of the unknown / reserved types
+      that §9 says to ignore — and whose only place is the very start of a stream that is handed to
+      the WebTransport layer instead of the request API, C19) -/
+  | W
+  /-- frame type 0x41 read, the session id not (yet) complete when the stream stops -/
+  | Wpart
 deriving Repr, DecidableEq
 
 inductive Side where
@@ -161,10 +168,29 @@ def atStop (side : Side) (p : Phase) : Stop → Expect
     | .body h acc => .oneOf [{ calls := [.head h, .body acc, .bodyEnd, .noTrailers] }]
     | .trailers h acc t => .oneOf [{ calls := [.head h, .body acc, .bodyEnd, .trailers t] }]
 
+/-- the alternatives of both -/
+def Expect.union : Expect → Expect → Expect
+  | .oneOf a, .oneOf b => .oneOf (a ++ b)
+
+/-- R-03b: the stream stops inside a 0x41 header (type read, session id incomplete).  The type is
+    already known to be out of place, so refusing it at once is in order; so is waiting for the
+    rest of the header (stream open: the call is pending; RESET: the call sees the reset; FIN: the
+    header is cut short, H3_FRAME_ERROR). -/
+def atWpart (p : Phase) : Stop → Expect
+  | .open_ => (Expect.oneOf [{ calls := p.seen ++ [.pending] }]).union (violation p [H3_FRAME_UNEXPECTED])
+  | .reset c => (Expect.oneOf [{ calls := p.seen ++ [.resetBy c] }]).union (violation p [H3_FRAME_UNEXPECTED])
+  | _ => violation p [H3_FRAME_ERROR, H3_FRAME_UNEXPECTED]
+
 /-- read the frames left to right -/
 def expected (side : Side) : Phase → List K → Stop → Expect
   | p, [], stop => atStop side p stop
   | p, .U :: r, stop => expected side p r stop
+  -- R-03b: on a stream read through the request API (whether or not WebTransport was negotiated on
+  -- the connection) 0x41 is a known frame out of place: connection error H3_FRAME_UNEXPECTED
+  -- (RFC 9114 §4.1, what h3 does) or H3_FRAME_ERROR (it is not a well-formed HTTP/3 frame: it has
+  -- no length).  It is never skipped, acted on, or a reason to hang or panic.
+  | p, .W :: _, _ => violation p [H3_FRAME_UNEXPECTED, H3_FRAME_ERROR]
+  | p, .Wpart :: _, stop => atWpart p stop
   | p, .R :: _, _ => violation p [H3_FRAME_UNEXPECTED]
   | p, .X :: _, _ => violation p [H3_FRAME_UNEXPECTED]
   | p, .M :: _, _ => violation p [H3_FRAME_ERROR, H3_FRAME_UNEXPECTED]
